@@ -92,7 +92,12 @@ def _dump(payload, sub):
         links.append(dump_to_path(out, **opts))
     else:
         links.append(dump_to_zip(out, **opts))
-    dp, stats = Flow(*links).process()
+    flow = Flow(*links)
+    dp, stats = flow.process()
+    if payload.get('same_flow_twice') and target == 'path':
+        # the same Flow object (same dumper instance) runs again into the same directory: its counters start over
+        dp, stats = flow.process()
+        sub.count('same_flow_reruns')
     return {'stats': jsonable(stats)}
 
 
@@ -190,7 +195,7 @@ class C09(Prop):
     ASSUMPTIONS = ['number of data rows of a csv file = records parsed by the stdlib csv module minus the header; of a json file = length of the top-level array',
                    'package totals are compared with the sums over the resources recorded in the same written descriptor']
     REAL_VS_STUB = {'real': ['dataflows dumpers, csv/json writers, zipfile, the file system'], 'stub': ['ambient environment (TZ, umask, cwd, tempdir) set per dump']}
-    PROBES = ['zip-target', 'json-format', 'counters-renamed', 'counters-dotted', 'counter-disabled', 'filehash-in-path', 'empty-resource', 'multibyte-text', 'multibyte-text-in-descriptor', 'compact-descriptor', 'dumper-drops-invalid-rows', 're-dump-of-a-loaded-package', 'excel-format', 'second-dump-at-a-later-instant', 'earlier-dump-of-other-data-in-the-same-place']
+    PROBES = ['zip-target', 'json-format', 'counters-renamed', 'counters-dotted', 'counter-disabled', 'filehash-in-path', 'empty-resource', 'multibyte-text', 'multibyte-text-in-descriptor', 'compact-descriptor', 'dumper-drops-invalid-rows', 're-dump-of-a-loaded-package', 'excel-format', 'second-dump-at-a-later-instant', 'earlier-dump-of-other-data-in-the-same-place', 'same-flow-object-dumps-twice']
     TIERS = {'quick': dict(runs=700, wall=100, run_wall=300),
              'thorough': dict(runs=20000, wall=1700, run_wall=600)}
     SHRINK_FROZEN = ('fields',)
@@ -240,7 +245,7 @@ class C09(Prop):
             clock[1] = t1
             env2['tz'] = None
         return {'tables': tabs, 'empty': empty, 'opts': opts, 'corrupt': corrupt, 'redump': rng.random() < 0.3 and opts['format'] == 'csv', 'target': rng.choice(['path', 'path', 'zip']),
-                'title': rng.choice([None, None, 'plain', 'Données – 数据 \U0001F600']), 'clock': clock, 'env2': env2, 'prior': rng.random() < 0.25}
+                'title': rng.choice([None, None, 'plain', 'Données – 数据 \U0001F600']), 'clock': clock, 'env2': env2, 'prior': rng.random() < 0.25, 'same_flow_twice': rng.random() < 0.15}
 
     def execute(self, sc, ctx):
         if not sc.get('tables'):
@@ -256,6 +261,8 @@ class C09(Prop):
             ctx.probe('json-format')
         if fmt == 'excel':
             ctx.probe('excel-format')
+        if sc.get('same_flow_twice') and target == 'path':
+            ctx.probe('same-flow-object-dumps-twice')
         if sc.get('prior') and any(len(t['rows']) > 1 for t in sc['tables']):
             ctx.probe('earlier-dump-of-other-data-in-the-same-place')
         cc = opts.get('counters') or {}
@@ -286,7 +293,8 @@ class C09(Prop):
             os.chdir(d)
             out = os.path.join(d, 'out' if target == 'path' else 'out.zip')
             r = ctx.subrun(_dump, {'tables': sc['tables'], 'empty': sc.get('empty'), 'opts': opts, 'target': target, 'out': out, 'env': env, 'corrupt': sc.get('corrupt'), 'title': sc.get('title'),
-                                   'clock': (sc.get('clock') or [None, None])[n], 'prior': sc.get('prior')})
+                                   'clock': (sc.get('clock') or [None, None])[n], 'prior': sc.get('prior'),
+                                   'same_flow_twice': sc.get('same_flow_twice')})
             if r['status'] != 'ok':
                 if n == 0:
                     ctx.discard('dump raises: %s' % json.dumps(r.get('exc'))[:300])
